@@ -94,6 +94,8 @@ var Values = []string{
 	"x", "12", "abc", "a.b", "%41", "%2F", "a%2Fb", "%zz", "%", "\xc3\xa9", "x y", "..", "",
 	"a+b", "xz-12", "ab", "a", "b", "users", "v1", "2021", "05", "%E4%BD%A0", "%4", "q%25", "A",
 	"%2541", "%252F", "a%2525", "%25zz", "a%20b+c", "%2B+", "1+1%3D2", "c++", "+", "%2b%2B", "a;b", "a,b=c", "k=v&x", "caf\xe9", "\xff\xfe", "010", "a.", "a..",
+	// digits that are not ASCII digits (fullwidth, Arabic-Indic): [0-9] and \d do not admit them
+	"\uff11\uff12", "\u0661\u0662\u0663", "4\u0665",
 }
 
 // RouteOpts tunes the derivation generator.
@@ -208,6 +210,9 @@ func MatchAllSeg(t *rapid.T, used map[string]bool, wild bool) model.Seg {
 	default:
 		n := freshNames(t, used, 1)[0]
 		c := rapid.IntRange(1, 3).Draw(t, "capture")
+		if rapid.IntRange(0, 7).Draw(t, "bigcapture") == 0 {
+			c = []int{8, 9, 12}[rapid.IntRange(0, 2).Draw(t, "bigcap")]
+		}
 		return model.Seg{Elems: []model.Elem{{Params: []model.Param{
 			{Name: n, Value: "**", Blanks: blanks(t, wild)},
 			{Name: "capture", Value: strconv.Itoa(c), Blanks: blanks(t, wild), Lead: blanks(t, wild)},
